@@ -46,7 +46,8 @@ def gen(prop, stream, tier, avoid):
     ops = []
     for _ in range(nops):
         k = rng.weighted([("set_ptsw", 2), ("set_pts", 2), ("set_weights", 2), ("read", 4), ("scale", 1), ("reassign", 1),
-                          ("convert", 0.7), ("helpers", 1), ("grid", w_grid), ("copy_edit", 0.6)])
+                          ("convert", 0.7), ("helpers", 1), ("grid", w_grid), ("copy_edit", 0.6),
+                          ("resize", 0.5 if kind == "curve" else 0.0)])
         op = {"op": k, "seed": rng.randrange(1 << 30)}
         if k == "read":
             op["views"] = [rng.pick(["ctrlpts", "weights", "ctrlptsw", "ctrlpts2d", "eval"]) for _ in range(rng.pick([1, 1, 2, 3]))]
@@ -56,6 +57,9 @@ def gen(prop, stream, tier, avoid):
             op["view"] = rng.pick(["ctrlpts", "weights", "ctrlptsw"])
             # read / edit one entry of the returned list in place / write back (w = c.weights; w[i] = x; c.weights = w)
             op["edit"] = rng.randrange(64) if rng.chance(0.6) else None
+        elif k == "convert":
+            if rng.chance(0.35):
+                op["aL"] = [[rng.pick([-2.0, 0.0, 1.0, 3.5]), rng.pick([0.5, 2.0, 4.0])] for _ in range(3)][:shapes.DIRS[kind]]
         elif k == "grid":
             op["g"] = rng.weighted([("generate", 2), ("weight_list", 3), ("weight_scalar", 1), ("read", 4), ("reset", 0.5)])
             op["nu"], op["nv"] = rng.randint(1, 4), rng.randint(1, 4)
@@ -90,10 +94,11 @@ def _short(x):
 def run(script, ctx):
     g = shapes.G.load()
     from geomdl import CPGen
-    spec = script["objects"][0]
+    import json as _json
+    spec = _json.loads(_json.dumps(script["objects"][0]))
     obj = shapes.build(spec)
     kind, nd, dim = spec["kind"], shapes.DIRS[spec["kind"]], spec["dim"]
-    sizes = spec["sizes"]
+    sizes = list(spec["sizes"])
     n = len(spec["P"])
     P = [list(p) for p in spec["P"]]
     W = list(spec["W"])
@@ -231,6 +236,37 @@ def run(script, ctx):
             ctx.log("scale", op["c"])
             ctx.ops_executed += 1
             read_since = True
+        elif k == "resize":
+            # a control polygon with ANOTHER number of points is assigned through the unweighted view (points added to / taken
+            # from the curve), then a matching knot vector: the points read back are the points set, and the three views agree
+            # (whatever weights the library gives the new polygon - they must be positive and one per point)
+            n2 = max(spec["degrees"][0] + 1, n + rng.pick([-2, -1, 1, 2, 3]))
+            if n2 == n:
+                n2 = n + 1
+            newP = shapes.gen_points(rng, n2, dim)
+            try:
+                obj.ctrlpts = [list(q) for q in newP]
+                obj.knotvector = shapes.gen_knots(rng, spec["degrees"][0], n2)
+            except Exception as e:
+                ctx.fail("valid_setter_raised", "assigning %d control points (had %d) through ctrlpts and a matching knot vector raised %r" % (n2, n, e), op=k, **sig)
+            got = [list(q) for q in obj.ctrlpts]
+            ok, why = close(got, newP, TOL)
+            if not ok:
+                ctx.fail("view_inconsistent", "step %d: %d control points were assigned through ctrlpts (the curve had %d), ctrlpts reads back %d points: %s" % (
+                    idx, n2, n, len(got), why), view="ctrlpts", **sig)
+            newW = list(obj.weights)
+            if len(newW) != n2 or any(not (w_ > 0) for w_ in newW):
+                ctx.fail("view_inconsistent", "step %d: after assigning %d control points the weights view is %r" % (idx, n2, newW), view="weights", **sig)
+            n, P, W = n2, [list(q) for q in newP], newW
+            sizes[0] = n2
+            spec["sizes"] = sizes
+            spec["knots"] = [list(obj.knotvector)]
+            ctx.log("resize", n2)
+            ctx.ops_executed += 1
+            ctx.probe("control_polygon_resized_through_ctrlpts")
+            for vv in ("ctrlptsw", "eval"):
+                check_view(vv, "step %d, after the control polygon was resized to %d points" % (idx, n2))
+            read_since = False
         elif k == "copy_edit":
             # a deep copy is edited with the get - modify one entry in place - set idiom; the ORIGINAL keeps its three views
             # consistent (checked by the reads that follow and right here), and so does the copy
@@ -279,16 +315,31 @@ def run(script, ctx):
             ctx.probe("getter_list_fed_back_into_setter")
         elif k == "convert":
             # non-rational sibling with the same P: to rational (unit weights) and back
-            bs = shapes.new_object(kind, False)
-            shapes.define(bs, spec["degrees"], sizes, P, spec["knots"])
+            cal = op.get("aL")
+            if cal:
+                # the sibling keeps its knot vectors in their own range a + L * [0, 1] (normalize_kv=False): an identically
+                # evaluating shape answers the same parameters of THAT range
+                ck = [shapes.affine_knots(kv, a_, L_) for kv, (a_, L_) in zip(spec["knots"], cal)]
+                bs = shapes.new_object(kind, False, normalize_kv=False)
+                ctx.probe("conversion_of_unnormalised_shape")
+            else:
+                cal = [[0.0, 1.0]] * nd
+                ck = spec["knots"]
+                bs = shapes.new_object(kind, False)
+            shapes.define(bs, spec["degrees"], sizes, P, ck)
             nb = g.convert.bspline_to_nurbs(bs)
             back = g.convert.nurbs_to_bspline(nb)
-            model = R.Spline(spec["degrees"], spec["knots"], sizes, P, False, float)
-            for prm in ([0.0] * nd, [1.0] * nd, [0.3125, 0.6875, 0.4375][:nd]):
+            model = R.Spline(spec["degrees"], ck, sizes, P, False, float)
+            for prm0 in ([0.0] * nd, [1.0] * nd, [0.3125, 0.6875, 0.4375][:nd]):
+                prm = [a_ + L_ * x for x, (a_, L_) in zip(prm0, cal)]
                 e = model.eval(prm)
                 # the sources of both conversions are evaluated too, AFTER the conversions: converting must not disturb its input
                 for nm, o in (("bspline_to_nurbs", nb), ("nurbs_to_bspline", back), ("bspline_to_nurbs (its input afterwards)", bs)):
-                    got = list(o.evaluate_single(prm[0] if nd == 1 else prm))
+                    try:
+                        got = list(o.evaluate_single(prm[0] if nd == 1 else prm))
+                    except Exception as ee:
+                        ctx.fail("conversion_changed_shape", "%s: the converted shape cannot be evaluated at %r (a parameter of the original's domain): %r" % (
+                            nm, prm, ee), op=nm, **sig)
                     ok, why = close(got, e, 1e-9)
                     if not ok:
                         ctx.fail("conversion_changed_shape", "%s: converted shape evaluates to %r at %r, original to %r" % (nm, got, prm, e), op=nm, **sig)
